@@ -22,22 +22,9 @@ def called(p, pattern):
     return [e for e in p.events if e.kind == "call" and re.search(pattern, e.callee)]
 
 
-def run():
-    rep = Report(
-        "C04", "other",
-        "Bounded symbolic execution (mirsym/z3, list model): dedupe::partition on groups of 2-3 files for every sub-group "
-        "distribution with stat results, pattern matches and time comparisons as free pure functions; was_modified on 2 files; "
-        "the header merge of run_dedupe (binary MIR); the order clock-read / first-file-read in run_group.  z3 decides that "
-        "a file is only ever classified if it is a regular file of the recorded length and (with a limit) no member is newer "
-        "than the limit or unreadable.",
-        assumptions=["Metadata::is_file/len/modified and the DateTime comparison are deterministic functions of the file state",
-                     "FileSubGroup::group returns a partition of its input (contract)", "mtime-preserving replacement is outside the guarantee (as in the property)"],
-        outside=["TOCTOU between the dedupe run's stat and its unlink", "rayon scheduling", "chrono parsing of the header timestamp"])
-    ctx = oblig.Ctx()
-    prog = ctx.lib
-    oblig.install_battery(rep, ctx, ["c04_battery"])
-    part_common.add(rep, prog, ["stale-filter", "mtime-check", "no-loss-no-dup"], "C04", part_common.make_replayer(ctx))
 
+def was_modified_obligations(rep, prog):
+    """was_modified: result semantics and what is compared (shared with C02, whose statement rests on the same staleness check)"""
     # was_modified semantics
     try:
         eng, paths = dp.was_modified_semantics(prog)
@@ -95,6 +82,24 @@ def run():
         o = Obligation("was_modified semantics", "E2 mirsym/z3")
         o.verdict, o.detail = "inconclusive", str(ex)
         rep.add(o)
+
+def run():
+    rep = Report(
+        "C04", "other",
+        "Bounded symbolic execution (mirsym/z3, list model): dedupe::partition on groups of 2-3 files for every sub-group "
+        "distribution with stat results, pattern matches and time comparisons as free pure functions; was_modified on 2 files; "
+        "the header merge of run_dedupe (binary MIR); the order clock-read / first-file-read in run_group.  z3 decides that "
+        "a file is only ever classified if it is a regular file of the recorded length and (with a limit) no member is newer "
+        "than the limit or unreadable.",
+        assumptions=["Metadata::is_file/len/modified and the DateTime comparison are deterministic functions of the file state",
+                     "FileSubGroup::group returns a partition of its input (contract)", "mtime-preserving replacement is outside the guarantee (as in the property)"],
+        outside=["TOCTOU between the dedupe run's stat and its unlink", "rayon scheduling", "chrono parsing of the header timestamp"])
+    ctx = oblig.Ctx()
+    prog = ctx.lib
+    oblig.install_battery(rep, ctx, ["c04_battery"])
+    part_common.add(rep, prog, ["stale-filter", "mtime-check", "no-loss-no-dup"], "C04", part_common.make_replayer(ctx))
+
+    was_modified_obligations(rep, prog)
 
     # fetch_files_metadata: one unreadable member => None
     try:
